@@ -1,6 +1,8 @@
 package rules
 
 import (
+	"go/token"
+
 	"golang.org/x/tools/go/ssa"
 
 	"olricvet/internal/core"
@@ -77,4 +79,114 @@ func c12MatchIsRegexp(r *core.Run) {
 			"whether a key is yielded is not decided by regexp.Match alone ("+map[bool]string{true: "no Match on the way", false: "also decided by " + foreign}[!matched]+"): keys that match the expression are missing from a MATCH scan, or others appear")
 	})
 	r.Floor(rule, cnt, 1)
+}
+
+// c12ResumeRestartsNextTable: a scan cursor is tableSize*coefficient + position inside the
+// table. When the table the cursor names has gone (compacted away or shipped to another
+// member) the scan continues with the next existing table FROM ITS BEGINNING: the cursor is
+// re-based to coefficient*tableSize before the position inside the table is derived from it.
+// Carrying the old in-table position into another table (cursor % tableSize) skips every
+// entry of that table stored below the position.
+func c12ResumeRestartsNextTable(r *core.Run) {
+	const rule = "resume-restarts-next-table"
+	fn := r.Need(rule, kvPkg+".(*KVStore).scanCommon")
+	if fn == nil {
+		return
+	}
+	f := fn.SSA
+	isTS := core.IsFieldLoad("KVStore", "tableSize")
+	cnt := 0
+	n := counter{}
+	for _, c := range findInstrs(f, false, callTo(tablePkg+".(*Table).Scan", tablePkg+".(*Table).ScanRegexMatch")) {
+		args := c.(ssa.CallInstruction).Common().Args
+		if len(args) < 2 {
+			continue
+		}
+		cnt++
+		pos := args[1] // receiver, cursor, ...
+		rebased, modulo := false, false
+		seen := map[ssa.Value]bool{}
+		var back func(v ssa.Value, d int)
+		back = func(v ssa.Value, d int) {
+			if v == nil || seen[v] || d > 10 {
+				return
+			}
+			seen[v] = true
+			switch x := v.(type) {
+			case *ssa.Phi:
+				for _, e := range x.Edges {
+					back(e, d+1)
+				}
+			case *ssa.BinOp:
+				switch x.Op {
+				case token.REM:
+					modulo = true
+				case token.SUB:
+					back(x.X, d+1)
+				case token.MUL:
+					// coefficient * tableSize with the coefficient returned by findCoefficient
+					other := x.X
+					if isTS(x.X) {
+						other = x.Y
+					} else if !isTS(x.Y) {
+						return
+					}
+					if ex, isEx := core.SuccessValue(other).(*ssa.Extract); isEx {
+						if call, isCall := ex.Tuple.(*ssa.Call); isCall && methodName(call) == "findCoefficient" {
+							rebased = true
+						}
+					}
+				}
+			}
+		}
+		back(pos, 0)
+		r.Check(rebased && !modulo, rule, n.next(fn.Name+" position handed to the table scan"), site(r, instrPos(c)),
+			"when the cursor's table is gone the cursor is re-based to the next table's first position",
+			"the position inside the table is not re-based when the scan moves on to another table (the old in-table position is carried over, e.g. cursor % tableSize): entries of the next table stored below that position are never visited")
+	}
+	r.Floor(rule, cnt, 2)
+}
+
+// c12ScanAnswersForItsCopy: DM.SCAN asks a member for the keys of ITS copy of a partition
+// (primary fragment, or backup fragment with the replica flag). The iterators ask every
+// member the routing table lists for the partition — current owner and previous owners
+// that have not yet handed their fragment over — and merge the pages. A member must
+// therefore answer from the fragment it holds whatever its position in the owners list;
+// answering "nothing" unless it is the current owner makes every key that still waits for
+// its hand-over disappear from full scans.
+func c12ScanAnswersForItsCopy(r *core.Run) {
+	const rule = "scan-answers-for-its-copy"
+	fn := r.Need(rule, dmapPkg+".(*DMap).Scan")
+	if fn == nil {
+		return
+	}
+	f := fn.SSA
+	pt := passThrough(r.P)
+	cnt := 0
+	n := counter{}
+	loads := findInstrs(f, false, callTo(dmapPkg+".(*DMap).loadFragment"))
+	for _, ret := range core.Returns(f) {
+		if !core.SuccessCapable(ret, pt) {
+			continue
+		}
+		cnt++
+		// a successful answer is either computed from the fragment (after loadFragment) or is the
+		// empty answer for "this member holds no fragment" (errFragmentNotFound)
+		after := false
+		for _, l := range loads {
+			if core.Dominates(l, ret) {
+				after = true
+			}
+		}
+		ownerTest := false
+		for _, cd := range core.Conditions(ret.Block()) {
+			if c, isC := cd.Val.(*ssa.Call); isC && isSelfTest(c) {
+				ownerTest = true
+			}
+		}
+		r.Check(after && !ownerTest, rule, n.next(fn.Name+" successful answer"), site(r, instrPos(ret)),
+			"answers from the fragment this member holds, whatever its place in the owners list",
+			"a successful (possibly empty) answer is given without looking at this member's fragment, or depends on whether this member is the partition's current owner: keys on a previous owner that wait for their hand-over vanish from every full scan")
+	}
+	r.Floor(rule, cnt, 2)
 }
